@@ -66,13 +66,13 @@ pub enum FlowKind {
     TwoSlices,
     /// batch of stream 0 + snapshot of a top-level commutative fold (count) of the *unordered*
     /// stream 1: the snapshot is fed by a `TopLevelFoldHook` + `PassthroughSingletonHook` pair.
-    /// NOT part of `ALL`: on the current tree this program crashes the simulator (FINDINGS.md #1);
-    /// it is kept so that the finding's replay file stays executable.
+    /// (this program exposed finding #1, see findings/NOTES.txt: before commit 1bedb80806a it
+    /// crashed the simulator whenever its tick was scheduled by the batch alone)
     BatchFoldSnap,
 }
 #[cfg(stageleft_runtime)]
 impl FlowKind {
-    pub const ALL: [FlowKind; 9] = [
+    pub const ALL: [FlowKind; 10] = [
         FlowKind::Total,
         FlowKind::NoOrd,
         FlowKind::KeyedTotal,
@@ -82,9 +82,8 @@ impl FlowKind {
         FlowKind::TwoBatches,
         FlowKind::TopOrder,
         FlowKind::TwoSlices,
+        FlowKind::BatchFoldSnap,
     ];
-    /// programs that are only reachable through replay files / finding demonstrations
-    pub const FINDING: [FlowKind; 1] = [FlowKind::BatchFoldSnap];
     pub fn name(self) -> &'static str {
         match self {
             FlowKind::Total => "total",
